@@ -238,6 +238,9 @@ def h_reply(eng, case):
     delay = eng.int('delay', 0, 2 ** 33)
     token = [None, b'\x01\x02\x03\x04'][eng.choice(2, 'token?')]
     down = eng.choice(2, 'face-down?')
+    # the event loop may be busy (a handler that computes, another task) between the arrival of the Interest and the
+    # moment anything scheduled for it runs: that time counts against the lifetime like any other
+    busy = eng.int('busy', 0, 2 ** 33) if case.get('busy') else 0
     saved = {}
 
     async def pass_v2(name, sig, ctx):
@@ -261,6 +264,8 @@ def h_reply(eng, case):
 
     async def main(loop):
         await app._receive(typ, wire)
+        if case.get('busy'):
+            loop._now = loop._now + loop.at_ms(busy)        # time passes without the loop running anything
         for _ in range(3):
             await asyncio.sleep(0)
         await vloop.sleep_until(loop, loop.at_ms(delay))
@@ -282,7 +287,7 @@ def h_reply(eng, case):
         eng.fail('longest-prefix', 'no-handler')
         return
     eff = life if life is not None else 4000
-    in_time = delay <= eff
+    in_time = And(delay <= eff, busy <= eff)
     sent = out.get('sent', [])
     if down:
         # nothing can be transmitted: the callback must not claim success (False or an error are both truthful)
@@ -351,4 +356,5 @@ def cases(tier, seed):
         if not quick:
             cs.append((h, {'ops': 4, 'reprs': [0, 3, 1, 2], 'prefixes': sub[1:]}, {'weight': 2000, 'split_depth': 5}))
     cs.append(('reply', {}))
+    cs.append(('reply', {'busy': True}))
     return cs
